@@ -8,7 +8,7 @@ HOOKS = {
 }
 ENGINES = [
   {'name': 'ir2c+cbmc', 'path': 'tools/ir2c.py, tools/vlib.py',
-   'serves_properties': ['C01','C02','C03','C04','C05','C06','C07','C08','C10','C11','C12','C16','C17','C18','C19'], 'kind_free_text': 'real draco C++ -> clang++-14 LLVM IR -> own IR-to-C translator -> CBMC 6.11 bounded model checking (SAT/SMT verdict), counterexamples replayed natively'},
+   'serves_properties': ['C01','C02','C03','C04','C05','C06','C07','C08','C10','C11','C12','C13','C16','C17','C18','C19'], 'kind_free_text': 'real draco C++ -> clang++-14 LLVM IR -> own IR-to-C translator -> CBMC 6.11 bounded model checking (SAT/SMT verdict), counterexamples replayed natively'},
 ]
 NOTES = ('Every check is ./vcheck <id> --tier quick|thorough (cwd /verif). Exit 0 = all obligations discharged by the solver within the stated bounds; '
          '1 = counterexample found and replayed against the real code (VIOLATION line); 2 = broken/inconclusive (never reported as success). '
@@ -25,9 +25,9 @@ CLAIMED = {
   'design_ref': 'DESIGN.md 3/C02', 'technique': _T + '; non-speculating IR flavour with UB assertions',
   'note': _N + 'Bounds: 8..12 input bytes, recursion/loops unwound with unwinding assertions.'},
  'C03': {
-  'text': 'The real MeshSequentialDecoder::DecodeConnectivity is executed symbolically on a real Mesh object for every 6-byte input: success implies every stored face index < num_points. (Found and, after the fix, proves the absence of the missing-range-check defect.)',
+  'text': 'The real MeshSequentialDecoder::DecodeConnectivity is executed symbolically on a real Mesh object for every 6-byte input: success implies every stored face index < num_points. (Found and, after the fix, proves the absence of the missing-range-check defect.) For Edgebreaker, two units of the real MeshEdgebreakerDecoderImpl on real decoder objects: CreateAttributesDecoder never re-binds bound attribute connectivity data and rejects out-of-range slots for every 4-byte header; AssignPointsToCorners, from ANY corner table satisfying the C13 invariants and ANY attribute seams, yields faces with point ids < num_points, no unused point, and a well-defined attribute vertex per point.',
   'design_ref': 'DESIGN.md 3/C03', 'technique': _T,
-  'note': _N + 'Bounds: 6 input bytes, <=1 face, raw-index branches; compressed-index path cut. Edgebreaker/kd-tree output validity outside the claim.'},
+  'note': _N + 'Bounds: 6 input bytes, <=1 face, raw-index branches; compressed-index path cut. Edgebreaker: 2 faces / 4 vertices / <=1 attribute connectivity; the C13 invariants of the decoded corner table and "a vertex not flagged as hole is interior" are ASSUMED (the symbol-driven connectivity decoding loop itself uses std::unordered_map and is outside the claim, as is the kd-tree decoder).'},
  'C04': {
   'text': 'For each (q, range) of a grid the solver proves the half-step error bound for EVERY float32 value in [0,range] on the real Quantizer/Dequantizer code (IEEE semantics bit-blasted).',
   'design_ref': 'DESIGN.md 3/C04', 'technique': _T + '; floating point bit-blasted by CBMC (kissat)',
@@ -48,6 +48,10 @@ CLAIMED = {
   'text': '2-safety proof on the real AttributeQuantizationTransform + PointAttribute objects: the decoded value of a point is independent of the other point, for every q and all float inputs; explicit parameters are stored verbatim.',
   'design_ref': 'DESIGN.md 3/C12', 'technique': _T + '; self-composition, float arithmetic as uninterpreted functions',
   'note': _N + 'Bounds: 2 points x 2 components. That the encoders call SetParameters when the option is set is outside the claim.'},
+ 'C13': {
+  'text': 'Inductive decomposition of CornerTable::Init on the real member functions: ComputeOppositeCorners on EVERY triangle list, BreakNonManifoldEdges and ComputeVertexCorners each from ANY state satisfying the previous phase\'s post-condition; asserted: symmetric pairing across a shared oppositely oriented edge of two non-degenerate non-mirrored faces, degenerate faces unlinked, manifold edges connected, every corner maps through the parent relation to its input vertex id, all corners of a vertex lie on the one fan reached from its representative corner; plus the whole Init on two triangles.',
+  'design_ref': 'DESIGN.md 3/C13', 'technique': _T + '; inductive (one-phase-from-arbitrary-consistent-state) decomposition',
+  'note': _N + 'Bounds: 2 triangles over <= 4 vertex ids (quick), 3 triangles over 5 ids for phases 2 and 3 (thorough) - below the property\'s own bound of 4 triangles over 5 ids; the edge-breaking branch of phase 2 needs >= 3 faces (thorough tier only) and the seeded defects in it need 4-5 faces (missed). libstdc++ vector growth is replaced by contract models (harness/verif_vecmodel_*.h). MeshAttributeCornerTable and the mesh -> corner table helpers are outside the claim.'},
  'C05': {
   'category': 'translation_validation', 'engine': 'ir2c+cbmc (tv)',
   'text': 'Translation validation: the C translation of 39 format-defining decoder kernels (constants, varints, transforms, rANS/rABS steps and table parsing, version gates, dequantization, predictors) at the pinned revision is frozen under frozen/; every run regenerates the current translation and CBMC proves equal observable results for ALL inputs of each kernel harness. A behavioural edit yields a distinguishing input that is replayed on the compiled kernels.',
@@ -83,7 +87,6 @@ NOT_APPLICABLE = {p: _WIP for p in ['C%02d' % i for i in range(1, 21)]}
 NOT_APPLICABLE.update({
  'C20': 'KeyframeAnimation is a PointCloud subclass encoded by the sequential point-cloud codec; only LinearSequencer ordering is encodable, which is too thin to decide the property (DESIGN.md 4)',
  'C09': 'both sides of the comparison run over CornerTable/MeshAttributeCornerTable built inside encoder/decoder objects; CornerTable::Init alone gives no solver verdict on 2 symbolic triangles in 20 min and no leaf kernel implies the equality (DESIGN.md 5)',
- 'C13': 'CornerTable::Init is a fix-point over growing std::vectors; no CBMC verdict on 2 symbolic triangles over 4 ids in 1200 s / 6 GB, far below the property\'s own bound (DESIGN.md 5)',
  'C14': 'dedup runs on std::unordered_map (bucket policy out of line in libstdc++, no IR), cleanup/stripifier on constructed CornerTable/Mesh; nothing encodable carries the property (DESIGN.md 5)',
  'C15': 'writers format through snprintf/ostream (libc/libstdc++ without IR) and readers parse that text; whole-file runs cannot be encoded (DESIGN.md 5)',
 })
